@@ -16,10 +16,11 @@ Definition ig_details (ig : list bool) := nth 5 ig false.
 Definition when {A} (b : bool) (l : list A) : list A := if b then l else [].
 
 (* what must be installed: whole-path ignores for every location of an ignored category, and key
-   filters on the cell (execution_count, id, attachments) and on the output (execution_count) *)
+   filters on the cell (execution_count, id, attachments, outputs) and on the output (execution_count) *)
 Definition expected_table (ig : list bool) : list (pystr * differ) :=
   let cell_keys := when (ig_details ig) [of_ascii "execution_count"%string] ++ when (ig_id ig) [of_ascii "id"%string]
-                   ++ when (ig_attachments ig) [of_ascii "attachments"%string] in
+                   ++ when (ig_attachments ig) [of_ascii "attachments"%string]
+                   ++ when (ig_outputs ig) [of_ascii "outputs"%string] in
   when (negb (Nat.eqb (List.length cell_keys) 0)) [(of_ascii "/cells/*"%string, DfIgnoreKeys DfDiff cell_keys)]
   ++ when (ig_attachments ig) [(of_ascii "/cells/*/attachments"%string, DfIgnore)]
   ++ when (ig_id ig) [(of_ascii "/cells/*/id"%string, DfIgnore)]
